@@ -128,6 +128,10 @@ func (r *generateReader) Read(p []byte) (int, error) {
 }
 
 func (r *generateReader) ReadByte() (byte, error) {
+	// A backslash and the character it escapes yield nothing by themselves:
+	// start over for the next octet, without growing the stack - the text of
+	// the directive may be a very long run of them.
+again:
 	if r.eof {
 		return 0, io.EOF
 	}
@@ -154,7 +158,7 @@ func (r *generateReader) ReadByte() (byte, error) {
 		}
 
 		r.escape = true
-		return r.ReadByte()
+		goto again
 	case '$':
 		if r.escape {
 			r.escape = false
@@ -201,7 +205,7 @@ func (r *generateReader) ReadByte() (byte, error) {
 	default:
 		if r.escape { // Pretty useless here
 			r.escape = false
-			return r.ReadByte()
+			goto again
 		}
 
 		return r.s[si], nil
